@@ -821,11 +821,19 @@ def _unify_var(
     """Helper function for unification of type or const variables."""
     if var in subst:
         return unify(subst[var], t, subst)
-    if isinstance(t, ExistentialTypeVar) and t in subst:
+    if isinstance(t, ExistentialVar) and t in subst:
         return unify(var, subst[t], subst)
-    if var in t.unsolved_vars:
+    if _occurs(var, t, subst):
         return None
     return {var: t, **subst}
+
+
+def _occurs(var: ExistentialVar, t: Type | Const, subst: "Subst") -> bool:
+    """Occurs check: whether `var` is reachable from `t` through solved variables."""
+    return any(
+        v == var or (v in subst and _occurs(var, subst[v], subst))
+        for v in t.unsolved_vars
+    )
 
 
 def _unify_args(
